@@ -111,6 +111,8 @@ pub struct Oracle {
     pub leader_transitions: u64,
     /// highest index in the commit ledger
     pub max_committed: u64,
+    /// leader -> virtual ms of every AppendEntries request it handed to the transport
+    pub ae_send_times: BTreeMap<u32, Vec<u64>>,
     /// node -> purge cutoffs issued (virtual ms, cutoff)
     pub purges: BTreeMap<u32, Vec<(u64, u64)>>,
 }
@@ -272,6 +274,10 @@ impl Oracle {
         self.note_term(leader, req.term, "ae");
         self.trace("ae", leader as u64, peer as u64, (req.prev_log_index << 16) ^ req.entries.len() as u64);
         self.acts_as_leader(leader, req.term, "append_entries_sent");
+        let v = self.ae_send_times.entry(leader).or_default();
+        if v.last() != Some(&vnow()) {
+            v.push(vnow());
+        }
         // C08: contiguity
         let mut expect = req.prev_log_index + 1;
         let mut ok = true;
